@@ -48,45 +48,47 @@ where
     }
 }
 
-fn decode_as<E: EncodedPoint>(bytes: &[u8]) -> Value
-where
-    <E::Affine as CurveAffine>::Base: J,
-{
-    let mut e = E::empty();
-    assert_eq!(bytes.len(), E::size(), "wrong length for this encoding");
-    e.as_mut().copy_from_slice(bytes);
-    let checked = e.into_affine();
-    let reenc_c = match &checked {
-        Ok(p) => json!({
-            "c": bytes_to_j(p.into_compressed().as_ref()),
-            "u": bytes_to_j(p.into_uncompressed().as_ref())}),
-        Err(_) => json!(false),
+macro_rules! decode_as_impl {
+    ($name:ident, $E:ty) => {
+        fn $name(bytes: &[u8]) -> Value {
+            let mut e = <$E>::empty();
+            assert_eq!(bytes.len(), <$E>::size(), "wrong length for this encoding");
+            e.as_mut().copy_from_slice(bytes);
+            let checked = e.into_affine();
+            let reenc_c = match &checked {
+                Ok(p) => json!({
+                    "c": bytes_to_j(p.into_compressed().as_ref()),
+                    "u": bytes_to_j(p.into_uncompressed().as_ref())}),
+                Err(_) => json!(false),
+            };
+            let unchecked = e.into_affine_unchecked();
+            json!({"checked": dec_res(checked), "unchecked": dec_res(unchecked), "reenc": reenc_c})
+        }
     };
-    let unchecked = e.into_affine_unchecked();
-    json!({"checked": dec_res(checked), "unchecked": dec_res(unchecked), "reenc": reenc_c})
 }
+decode_as_impl!(decode_g1c, pairing::bls12_381::G1Compressed);
+decode_as_impl!(decode_g1u, pairing::bls12_381::G1Uncompressed);
+decode_as_impl!(decode_g2c, pairing::bls12_381::G2Compressed);
+decode_as_impl!(decode_g2u, pairing::bls12_381::G2Uncompressed);
 
-fn exec_decode<A: CurveAffine>(op: &Value) -> Value
-where
-    A::Base: J,
-{
+fn exec_decode(g: &str, op: &Value) -> Value {
     let bytes = j_to_bytes(&op["bytes"]);
-    match op["form"].as_str().unwrap() {
-        "c" => decode_as::<A::Compressed>(&bytes),
-        "u" => decode_as::<A::Uncompressed>(&bytes),
-        _ => panic!("bad form"),
+    match (g, op["form"].as_str().unwrap()) {
+        ("G1", "c") => decode_g1c(&bytes),
+        ("G1", "u") => decode_g1u(&bytes),
+        ("G2", "c") => decode_g2c(&bytes),
+        ("G2", "u") => decode_g2u(&bytes),
+        _ => panic!("bad group / form"),
     }
 }
 
-fn exec_encode<G: Grp>(op: &Value) -> Value
-where
-    G::Base: J,
-    <G::Affine as CurveAffine>::Base: J,
-{
-    let a: G::Affine = if op.get("pj").is_some() {
-        j_to_proj::<G>(&op["pj"]).into_affine()
+macro_rules! exec_encode_impl {
+    ($name:ident, $G:ty, $A:ty, $B:ty) => {
+        fn $name(op: &Value) -> Value {
+    let a: $A = if op.get("pj").is_some() {
+        j_to_proj::<$G>(&op["pj"]).into_affine()
     } else {
-        j_to_aff::<G>(&op["p"])
+        j_to_aff::<$G>(&op["p"])
     };
     let c = a.into_compressed();
     let u = a.into_uncompressed();
@@ -94,10 +96,15 @@ where
         "aff": aff_to_j(&a),
         "c": bytes_to_j(c.as_ref()), "u": bytes_to_j(u.as_ref()),
         "dc": dec_res(c.into_affine()), "du": dec_res(u.into_affine()),
-        "sizes": [<<G::Affine as CurveAffine>::Compressed as EncodedPoint>::size(),
-                  <<G::Affine as CurveAffine>::Uncompressed as EncodedPoint>::size()],
+        "sizes": [<<$A as CurveAffine>::Compressed>::size(),
+                  <<$A as CurveAffine>::Uncompressed>::size()],
     })
+        }
+    };
 }
+exec_encode_impl!(exec_encode_g1, G1, G1Affine, pairing::bls12_381::Fq);
+exec_encode_impl!(exec_encode_g2, G2, G2Affine, pairing::bls12_381::Fq2);
+
 
 fn fq12_opt(o: Option<Fq12>) -> Value {
     match o {
@@ -113,30 +120,28 @@ fn g2a(v: &Value) -> G2Affine {
     j_to_aff::<G2>(v)
 }
 
-fn exec_stage<G: Grp + ClearH + IsogenyMap + OSSWUMap>(op: &Value) -> Value
-where
-    G::Base: J,
-    G: MapToCurve<G>,
-{
+macro_rules! exec_stage_impl {
+    ($name:ident, $G:ty, $A:ty, $B:ty) => {
+        fn $name(op: &Value) -> Value {
     match op["op"].as_str().unwrap() {
-        "swu" => proj_to_j(&G::osswu_map(&G::Base::from_j(&op["t"]))),
+        "swu" => proj_to_j(&<$G>::osswu_map(&<$B>::from_j(&op["t"]))),
         "iso" => {
-            let mut p = j_to_proj::<G>(&op["p"]);
+            let mut p = j_to_proj::<$G>(&op["p"]);
             p.isogeny_map();
             proj_to_j(&p)
         }
         "clearh" => {
-            let mut p = j_to_proj::<G>(&op["p"]);
+            let mut p = j_to_proj::<$G>(&op["p"]);
             p.clear_h();
             proj_to_j(&p)
         }
-        "map" => proj_to_j(&<G as MapToCurve<G>>::map_to_curve(&G::Base::from_j(&op["u"]))),
+        "map" => proj_to_j(&<$G as MapToCurve<$G>>::map_to_curve(&<$B>::from_j(&op["u"]))),
         // homomorphism: images of p, q and of p + q (sum on the isogenous curve; the library's
         // addition formula does not involve the curve coefficient a, so it is usable for p != +-q;
         // the specification re-derives the sum itself)
         "iso_hom" => {
-            let p = j_to_proj::<G>(&op["p"]);
-            let q = j_to_proj::<G>(&op["q"]);
+            let p = j_to_proj::<$G>(&op["p"]);
+            let q = j_to_proj::<$G>(&op["q"]);
             let mut s = p;
             s.add_assign(&q);
             let (mut ip, mut iq, mut is) = (p, q, s);
@@ -145,32 +150,32 @@ where
             is.isogeny_map();
             json!({"sum": proj_to_j(&s), "ip": proj_to_j(&ip), "iq": proj_to_j(&iq), "is": proj_to_j(&is)})
         }
-        "map2" => proj_to_j(&<G as MapToCurve<G>>::map2_to_curve(
-            &G::Base::from_j(&op["u0"]),
-            &G::Base::from_j(&op["u1"]),
+        "map2" => proj_to_j(&<$G as MapToCurve<$G>>::map2_to_curve(
+            &<$B>::from_j(&op["u0"]),
+            &<$B>::from_j(&op["u1"]),
         )),
         _ => unreachable!(),
     }
+        }
+    };
 }
+exec_stage_impl!(exec_stage_g1, G1, G1Affine, pairing::bls12_381::Fq);
+exec_stage_impl!(exec_stage_g2, G2, G2Affine, pairing::bls12_381::Fq2);
+
 
 /// C07: points handed out by safe producers (only the produced points are logged)
-fn exec_prod<G: Grp + ClearH + IsogenyMap + OSSWUMap + SerDes>(op: &Value) -> Value
-where
-    G: CurveProjective<Scalar = Fr> + MapToCurve<G>,
-    G::Base: J,
-    G::Affine: CurveAffine<Projective = G, Base = G::Base, Scalar = Fr>,
-    G: pairing::hash_to_curve::HashToCurve<pairing::hash_to_field::ExpandMsgXmd<sha2::Sha256>>,
-    G: pairing::hash_to_curve::HashToCurve<pairing::hash_to_field::ExpandMsgXof<sha3::Shake128>>,
-{
+macro_rules! exec_prod_impl {
+    ($name:ident, $G:ty, $A:ty, $B:ty) => {
+        fn $name(op: &Value) -> Value {
     use pairing::hash_to_curve::HashToCurve;
     use pairing::hash_to_field::{ExpandMsgXmd, ExpandMsgXof};
-    let p = || j_to_proj::<G>(&op["p"]);
-    let q = || j_to_proj::<G>(&op["q"]);
-    let outs: Vec<G> = match op["fn"].as_str().unwrap() {
-        "one" => vec![G::one(), <G::Affine as CurveAffine>::one().into_projective(), G::zero()],
+    let p = || j_to_proj::<$G>(&op["p"]);
+    let q = || j_to_proj::<$G>(&op["q"]);
+    let outs: Vec<$G> = match op["fn"].as_str().unwrap() {
+        "one" => vec![<$G>::one(), <$A>::one().into_projective(), <$G>::zero()],
         "random" => {
             let mut rng = xs_rng(nat_to_words(&op["seed"], 1).unwrap()[0]);
-            (0..op["n"].as_u64().unwrap()).map(|_| G::random(&mut rng)).collect()
+            (0..op["n"].as_u64().unwrap()).map(|_| <$G>::random(&mut rng)).collect()
         }
         "arith" => {
             let (a, b) = (p(), q());
@@ -200,25 +205,25 @@ where
             v
         }
         "msm" => {
-            let pts: Vec<G::Affine> = op["points"].as_array().unwrap().iter().map(|x| j_to_aff::<G>(x)).collect();
+            let pts: Vec<$A> = op["points"].as_array().unwrap().iter().map(|x| j_to_aff::<$G>(x)).collect();
             let sc = scalars_of(&op["scalars"]);
             let scr: Vec<&[u64; 4]> = sc.iter().collect();
-            vec![<G::Affine as CurveAffine>::sum_of_products(&pts, &scr)]
+            vec![<$A>::sum_of_products(&pts, &scr)]
         }
         "decode" => {
             let bytes = j_to_bytes(&op["bytes"]);
             let r = if op["form"] == "c" {
-                let mut e = <<G::Affine as CurveAffine>::Compressed as EncodedPoint>::empty();
+                let mut e = <<$A as CurveAffine>::Compressed>::empty();
                 e.as_mut().copy_from_slice(&bytes);
                 e.into_affine()
             } else {
-                let mut e = <<G::Affine as CurveAffine>::Uncompressed as EncodedPoint>::empty();
+                let mut e = <<$A as CurveAffine>::Uncompressed>::empty();
                 e.as_mut().copy_from_slice(&bytes);
                 e.into_affine()
             };
-            let mut v: Vec<G> = r.ok().into_iter().map(|a| a.into_projective()).collect();
+            let mut v: Vec<$G> = r.ok().into_iter().map(|a| a.into_projective()).collect();
             let mut cur = Cursor::new(bytes);
-            if let Ok(x) = G::deserialize(&mut cur, op["form"] == "c") {
+            if let Ok(x) = <$G>::deserialize(&mut cur, op["form"] == "c") {
                 v.push(x);
             }
             v
@@ -227,19 +232,19 @@ where
             let msg = j_to_bytes(&op["msg"]);
             let dst = j_to_bytes(&op["dst"]);
             vec![
-                <G as HashToCurve<ExpandMsgXmd<sha2::Sha256>>>::hash_to_curve(&msg, &dst),
-                <G as HashToCurve<ExpandMsgXmd<sha2::Sha256>>>::encode_to_curve(&msg, &dst),
-                <G as HashToCurve<ExpandMsgXof<sha3::Shake128>>>::hash_to_curve(&msg, &dst),
-                <G as HashToCurve<ExpandMsgXof<sha3::Shake128>>>::encode_to_curve(&msg, &dst),
+                <$G as HashToCurve<ExpandMsgXmd<sha2::Sha256>>>::hash_to_curve(&msg, &dst),
+                <$G as HashToCurve<ExpandMsgXmd<sha2::Sha256>>>::encode_to_curve(&msg, &dst),
+                <$G as HashToCurve<ExpandMsgXof<sha3::Shake128>>>::hash_to_curve(&msg, &dst),
+                <$G as HashToCurve<ExpandMsgXof<sha3::Shake128>>>::encode_to_curve(&msg, &dst),
             ]
         }
         "map" => {
-            let u0 = G::Base::from_j(&op["u0"]);
-            let u1 = G::Base::from_j(&op["u1"]);
+            let u0 = <$B>::from_j(&op["u0"]);
+            let u1 = <$B>::from_j(&op["u1"]);
             vec![
-                <G as MapToCurve<G>>::map_to_curve(&u0),
-                <G as MapToCurve<G>>::map_to_curve(&u1),
-                <G as MapToCurve<G>>::map2_to_curve(&u0, &u1),
+                <$G as MapToCurve<$G>>::map_to_curve(&u0),
+                <$G as MapToCurve<$G>>::map_to_curve(&u1),
+                <$G as MapToCurve<$G>>::map2_to_curve(&u0, &u1),
             ]
         }
         "clear_h" => {
@@ -250,7 +255,12 @@ where
         f => panic!("unknown prod fn {}", f),
     };
     Value::Array(outs.iter().map(|x| proj_to_j(x)).collect())
+        }
+    };
 }
+exec_prod_impl!(exec_prod_g1, G1, G1Affine, pairing::bls12_381::Fq);
+exec_prod_impl!(exec_prod_g2, G2, G2Affine, pairing::bls12_381::Fq2);
+
 
 fn xs_rng(seed: u64) -> rand_xorshift::XorShiftRng {
     let mut s = [0u8; 16];
@@ -387,14 +397,10 @@ fn exec_stream(st: &mut MiscState, op: &Value) -> Value {
 pub fn exec_misc(st: &mut MiscState, op: &Value) -> Value {
     let g = op["g"].as_str().unwrap_or("");
     match op["op"].as_str().unwrap() {
-        "decode" => match g {
-            "G1" => exec_decode::<G1Affine>(op),
-            "G2" => exec_decode::<G2Affine>(op),
-            _ => panic!("bad group"),
-        },
+        "decode" => exec_decode(g, op),
         "encode" => match g {
-            "G1" => exec_encode::<G1>(op),
-            "G2" => exec_encode::<G2>(op),
+            "G1" => exec_encode_g1(op),
+            "G2" => exec_encode_g2(op),
             _ => panic!("bad group"),
         },
         "insub" => match g {
@@ -403,8 +409,8 @@ pub fn exec_misc(st: &mut MiscState, op: &Value) -> Value {
             _ => panic!("bad group"),
         },
         "prod" => match g {
-            "G1" => exec_prod::<G1>(op),
-            "G2" => exec_prod::<G2>(op),
+            "G1" => exec_prod_g1(op),
+            "G2" => exec_prod_g2(op),
             _ => panic!("bad group"),
         },
         "random" => {
@@ -421,8 +427,8 @@ pub fn exec_misc(st: &mut MiscState, op: &Value) -> Value {
             Value::Array(outs)
         }
         "swu" | "iso" | "clearh" | "map" | "map2" | "iso_hom" | "swu_pt" => match g {
-            "G1" => exec_stage::<G1>(op),
-            "G2" => exec_stage::<G2>(op),
+            "G1" => exec_stage_g1(op),
+            "G2" => exec_stage_g2(op),
             _ => panic!("bad group"),
         },
         "pairing" => {
